@@ -238,4 +238,321 @@ example : ((processWay ⟨[(1, ⟨1, 0, 0, []⟩)], [], [], [(1, ())], [], []⟩
     fun x => (x.1.Ways.map (·.1), x.2)) = some ([10], true) := by decide +kernel
 example : KeepShapeS (KeepBounds ⟨⟨0, 0⟩, ⟨2, 2⟩⟩) (keepBounds ⟨0, 0, 2, 2⟩) := keepShapeS_bounds _
 
+
+/-- **C18_filter_provided_src** (clause "Filter by tags (or keep-all) is idempotent, closed under references and never
+returns more than it was given", no hypothesis left about the keep function): for the REGENERATED `KeepTags(want)` and
+`KeepAll()` the REGENERATED `Filter` loop, under every map iteration order, returns the input's objects whose key lies in
+THE least closed set; closed under the references present in the input; entries of the input; passes the regenerated
+`Check` when the input has no dangling reference; filtering again returns the same objects. -/
+theorem C18_filter_provided_src (K : KeepFunc) (hK : (∃ want, K = KeepTags want) ∨ K = KeepAll) (d : Data)
+    (hkm : KeysMatch d) (hm : MembersTypedD d) (hu : uniqueKeys (objsOf d)) :
+    ∃ (k : Keep) (Kset : List Ref), IsLeastClosed (objsOf d) k (· ∈ Kset) ∧
+      ∀ (orc : Oracle), orc.Valid →
+        ∃ out, Gen.Filter (passFuel (objsOf d) + 1) orc d K = .ok out ∧
+          (∀ o, o ∈ objsOf out ↔ o ∈ objsOf d ∧ o.key ∈ Kset) ∧ Sub out d ∧
+          (∀ o ∈ objsOf out, ∀ r ∈ o.refs, Present (objsOf d) r → Present (objsOf out) r) ∧
+          (noDangling (objsOf d) → ∀ orc', orc'.Valid → Check orc' out = none) ∧
+          (∀ orc', orc'.Valid → ∃ out2, Gen.Filter (passFuel (objsOf out) + 1) orc' out K = .ok out2 ∧
+            ∀ o, o ∈ objsOf out2 ↔ o ∈ objsOf out) := by
+  rcases hK with ⟨want, rfl⟩ | rfl
+  · obtain ⟨Kset, h⟩ := C18_filter_src _ _ (keepShape_tags want) (fun _ => rfl) d hkm hm hu
+    exact ⟨keepTags want, Kset, h⟩
+  · obtain ⟨Kset, h⟩ := C18_filter_src _ _ keepShape_all (fun _ => rfl) d hkm hm hu
+    exact ⟨keepAll, Kset, h⟩
+
+
+/-! ## GOMAXPROCS = 1: `extract`'s loop over the regenerated `processNode/Way/Relation` -/
+
+/-- `whileS_loop` for any pass orders, loop condition and invariant of the `Data` -/
+theorem whileS_loopG {ρ : Type} (e : Env) (hW : 0 < e.W) (doc : Doc) (order : Nat → List Obj)
+    (hord : ∀ i, sameMem (order i) doc = true) (P : Data → Prop)
+    (body : Nat → Bool × Data → Ctl ρ (Bool × Data))
+    (hbody : ∀ (iter : Nat) (nap : Bool) (out : Data) (s : State), R out s → P out →
+      ∃ nap' out', body iter (nap, out) = .fall (nap', out') ∧
+        SEq (absState out' nap') ((order iter).foldl (procSeq e) { s with flag := false }) ∧ P out') :
+    ∀ (n iter : Nat) (out : Data) (s s' : State), R out s → P out →
+      loopG e doc n ((List.range' iter n).map fun i => (order i, ([] : List Nat))) s = .ok s' →
+      ∃ out', whileS (fun x => x.1) body (n + 1) iter (true, out) = .fall (false, out') ∧ R out' s' ∧ P out'
+  | 0, _, _, _, _, _, _, h => by simp [loopG] at h
+  | n + 1, iter, out, s, s', hs, hsub, h => by
+    rw [List.range'_succ, List.map_cons] at h
+    simp only [loopG, nextPass, hord, if_true, List.tail_cons] at h
+    rw [runPass_seq e hW] at h
+    obtain ⟨nap', out1, hb, hs1, hsub1⟩ := hbody iter true out s hs hsub
+    have hfl : nap' = (List.foldl (procSeq e) { s with flag := false } (order iter)).flag := hs1.flag
+    have hR1 : R out1 (List.foldl (procSeq e) { s with flag := false } (order iter)) := by
+      unfold R; rw [← hfl]; exact hs1
+    rw [whileS]
+    simp only [if_true, hb]
+    cases hn : nap'
+    · rw [hn] at hfl
+      rw [← hfl] at h
+      simp only [Bool.false_eq_true, if_false, Except.ok.injEq] at h
+      subst h
+      refine ⟨out1, ?_, hR1, hsub1⟩
+      rw [whileS]; simp
+    · rw [hn] at hfl
+      rw [← hfl] at h
+      simp only [if_true] at h
+      exact whileS_loopG e hW doc order hord P body hbody n (iter + 1) out1 _ s' hR1 hsub1 h
+
+/-- what a worker does with one scanned object: the type switch of `extract`'s worker loop (hand-written reading of the
+untranslated loop; the three callees are the regenerated functions) -/
+def processObj (d : Data) (obj : Object) (K : KeepFunc) (kt : Bool) : Except String (Data × Bool) :=
+  match obj with
+  | .osmNode n => processNode d n K kt
+  | .osmWay x => processWay d x K kt
+  | .osmRelation r => processRelation d r K kt
+  | _ => .error "unknown type %T"
+
+/-- one pass of `extract` with ONE worker: the scanned objects in file order, `needAnotherPass` = OR of the results -/
+def extractPass (objs : List Object) (K : KeepFunc) (kt : Bool) (x : Bool × Data) : Ctl Data (Bool × Data) :=
+  rangeS objs (fun obj x => Ctl.call (processObj x.2 obj K kt) (fun y =>
+    if y.2 then Ctl.fall (true, y.1) else Ctl.fall (x.1, y.1))) (false, x.2)
+
+/-- `for needAnotherPass { … }` of `extract` with one worker -/
+def extractSeq (fuel : Nat) (objs : List Object) (K : KeepFunc) (kt : Bool) : Except String Data :=
+  Ctl.value (Ctl.bind (whileS (fun x => x.1) (fun _ x => extractPass objs K kt x) fuel 0 (true, Data.empty))
+    (fun x => Ctl.ret x.2 x))
+
+def objOfScanned (obj : Object) : Obj := (obj.scanned).getD default
+/-- the document a list of scanned objects denotes -/
+def docOf (objs : List Object) : Doc := objs.map objOfScanned
+
+theorem sameMem_self (doc : Doc) : sameMem doc doc = true := by
+  simp [sameMem]
+
+theorem filter_eq_imp {α : Type} (p q : α → Bool) : ∀ (l : List α), l.filter p = l.filter q → ∀ a ∈ l, p a = q a
+  | [], _, a, ha => by simp at ha
+  | x :: l, h, a, ha => by
+    have hlen := congrArg List.length h
+    by_cases hp : p x = true <;> by_cases hq : q x = true
+    · simp only [List.filter_cons, hp, hq, if_true, List.cons.injEq, true_and] at h
+      rcases List.mem_cons.1 ha with rfl | ha
+      · rw [hp, hq]
+      · exact filter_eq_imp p q l h a ha
+    · exfalso
+      have hq' : q x = false := by simpa using hq
+      simp only [List.filter_cons, hp, hq', if_true, Bool.false_eq_true, if_false] at h
+      have : x ∈ l.filter q := by rw [← h]; exact List.mem_cons_self
+      have := (List.mem_filter.1 this).2
+      -- x ∈ filter q, so q x = true
+      rw [hq'] at this; exact Bool.false_ne_true this
+    · exfalso
+      have hp' : p x = false := by simpa using hp
+      simp only [List.filter_cons, hp', hq, if_true, Bool.false_eq_true, if_false] at h
+      have : x ∈ l.filter p := by rw [h]; exact List.mem_cons_self
+      have := (List.mem_filter.1 this).2
+      rw [hp'] at this; exact Bool.false_ne_true this
+    · have hp' : p x = false := by simpa using hp
+      have hq' : q x = false := by simpa using hq
+      simp only [List.filter_cons, hp', hq', Bool.false_eq_true, if_false] at h
+      rcases List.mem_cons.1 ha with rfl | ha
+      · rw [hp', hq']
+      · exact filter_eq_imp p q l h a ha
+
+/-- every stored object is the copy of a scanned object of the document: same key, same references -/
+structure CopyInv (doc : Doc) (out : Data) : Prop where
+  keys : KeysMatch out
+  typed : MembersTypedD out
+  src : ∀ o ∈ objsOf out, ∃ o' ∈ doc, o'.key = o.key ∧ o'.refs = o.refs
+
+theorem objsOf_nodes_set (d : Data) (k : Int) (n : Node) (o : Obj)
+    (h : o ∈ objsOf { d with Nodes := GoMap.set d.Nodes k n }) : o = objNode n ∨ o ∈ objsOf d := by
+  simp only [objsOf, List.mem_append, List.mem_map] at h ⊢
+  rcases h with (⟨e, he, rfl⟩ | h) | h
+  · rcases mem_set he with rfl | he
+    · exact .inl rfl
+    · exact .inr (.inl (.inl ⟨e, he, rfl⟩))
+  · exact .inr (.inl (.inr h))
+  · exact .inr (.inr h)
+
+theorem objsOf_ways_set (d : Data) (k : Int) (w : Way) (o : Obj)
+    (h : o ∈ objsOf { d with Ways := GoMap.set d.Ways k w }) : o = objWay w ∨ o ∈ objsOf d := by
+  simp only [objsOf, List.mem_append, List.mem_map] at h ⊢
+  rcases h with (h | ⟨e, he, rfl⟩) | h
+  · exact .inr (.inl (.inl h))
+  · rcases mem_set he with rfl | he
+    · exact .inl rfl
+    · exact .inr (.inl (.inr ⟨e, he, rfl⟩))
+  · exact .inr (.inr h)
+
+theorem objsOf_rels_set (d : Data) (k : Int) (r : Relation) (o : Obj)
+    (h : o ∈ objsOf { d with Relations := GoMap.set d.Relations k r }) : o = objRel r ∨ o ∈ objsOf d := by
+  simp only [objsOf, List.mem_append, List.mem_map] at h ⊢
+  rcases h with h | ⟨e, he, rfl⟩
+  · exact .inr (.inl h)
+  · rcases mem_set he with rfl | he
+    · exact .inl rfl
+    · exact .inr (.inr ⟨e, he, rfl⟩)
+
+theorem copyRelation_members (r : Relation) (kt : Bool) : (copyRelation r kt).Members = r.Members := by
+  show r.Members.map (fun m => (⟨m.Ref, m.Typ⟩ : Member)) = r.Members
+  exact List.map_id' r.Members
+
+theorem copyInv_node {doc : Doc} {d : Data} (h : CopyInv doc d) (n : Node) (kt : Bool) (hn : objNode n ∈ doc) :
+    CopyInv doc { d with Nodes := GoMap.set d.Nodes n.ID (copyNode n kt) } := by
+  refine ⟨⟨fun e he => ?_, h.keys.ways, h.keys.rels⟩, h.typed, fun o ho => ?_⟩
+  · rcases mem_set he with rfl | he
+    · rfl
+    · exact h.keys.nodes e he
+  · rcases objsOf_nodes_set d n.ID (copyNode n kt) o (by exact ho) with rfl | ho
+    · exact ⟨objNode n, hn, rfl, rfl⟩
+    · exact h.src o ho
+
+theorem copyInv_way {doc : Doc} {d d' : Data} (h : CopyInv doc d) (w : OsmWay) (kt : Bool) (hw : objOsmWay w ∈ doc)
+    (hn : d'.Nodes = d.Nodes) (hr : d'.Relations = d.Relations)
+    (hws : d'.Ways = d.Ways ∨ d'.Ways = GoMap.set d.Ways w.ID (copyWay w kt)) : CopyInv doc d' := by
+  have hobj : ∀ o, o ∈ objsOf d' → o = objWay (copyWay w kt) ∨ o ∈ objsOf d := by
+    intro o ho
+    rcases hws with hws | hws
+    · right; simpa [objsOf, hn, hr, hws] using ho
+    · apply objsOf_ways_set d w.ID (copyWay w kt) o
+      simpa [objsOf, hn, hr, hws] using ho
+  refine ⟨⟨by rw [hn]; exact h.keys.nodes, fun e he => ?_, by rw [hr]; exact h.keys.rels⟩,
+    by unfold MembersTypedD; rw [hr]; exact h.typed, fun o ho => ?_⟩
+  · rcases hws with hws | hws <;> rw [hws] at he
+    · exact h.keys.ways e he
+    · rcases mem_set he with rfl | he
+      · rfl
+      · exact h.keys.ways e he
+  · rcases hobj o ho with rfl | ho
+    · refine ⟨objOsmWay w, hw, rfl, ?_⟩
+      simp [objOsmWay, objWay, copyWay, List.map_map, Function.comp_def]
+    · exact h.src o ho
+
+theorem copyInv_rel {doc : Doc} {d d' : Data} (h : CopyInv doc d) (r : Relation) (hty : MembersTyped r) (kt : Bool)
+    (hrd : objRel r ∈ doc)
+    (hn : d'.Nodes = d.Nodes) (hw : d'.Ways = d.Ways)
+    (hrs : d'.Relations = d.Relations ∨ d'.Relations = GoMap.set d.Relations r.ID (copyRelation r kt)) :
+    CopyInv doc d' := by
+  have hobj : ∀ o, o ∈ objsOf d' → o = objRel (copyRelation r kt) ∨ o ∈ objsOf d := by
+    intro o ho
+    rcases hrs with hrs | hrs
+    · right; simpa [objsOf, hn, hw, hrs] using ho
+    · apply objsOf_rels_set d r.ID (copyRelation r kt) o
+      simpa [objsOf, hn, hw, hrs] using ho
+  refine ⟨⟨by rw [hn]; exact h.keys.nodes, by rw [hw]; exact h.keys.ways, fun e he => ?_⟩, fun e he => ?_, fun o ho => ?_⟩
+  · rcases hrs with hrs | hrs <;> rw [hrs] at he
+    · exact h.keys.rels e he
+    · rcases mem_set he with rfl | he
+      · rfl
+      · exact h.keys.rels e he
+  · rcases hrs with hrs | hrs <;> rw [hrs] at he
+    · exact h.typed e he
+    · rcases mem_set he with rfl | he
+      · show MembersTyped (copyRelation r kt)
+        unfold MembersTyped; rw [copyRelation_members]; exact hty
+      · exact h.typed e he
+  · rcases hobj o ho with rfl | ho
+    · refine ⟨objRel r, hrd, rfl, ?_⟩
+      simp [objRel, copyRelation_members]
+    · exact h.src o ho
+
+
+theorem copyInv_empty (doc : Doc) : CopyInv doc Data.empty :=
+  ⟨⟨fun e he => by simp [Data.empty] at he, fun e he => by simp [Data.empty] at he, fun e he => by simp [Data.empty] at he⟩,
+    fun e he => by simp [Data.empty] at he, fun o ho => by simp [objsOf, Data.empty] at ho⟩
+
+/-- core of the sequential composition: `extractSeq` simulates `runG ⟨true, k, 1⟩` with the empty schedule -/
+theorem extract_seq_core (K : KeepFunc) (k : Keep) (hK : KeepShapeS K k) (objs : List Object) (kt : Bool)
+    (hsc : ∀ obj ∈ objs, (obj.scanned).isSome = true ∧ obj.Typed) (s' : State)
+    (hr : runG ⟨true, k, 1⟩ (docOf objs)
+      ((List.range' 0 (passFuel (docOf objs))).map fun _ => (docOf objs, ([] : List Nat))) = .ok s') :
+    ∃ out, extractSeq (passFuel (docOf objs) + 1) objs K kt = .ok out ∧ R out s' ∧ CopyInv (docOf objs) out := by
+  let doc := docOf objs
+  let e : Env := ⟨true, k, 1⟩
+  have hR0 : R Data.empty State.init := ⟨fun r => Iff.rfl, fun r => Iff.rfl, rfl⟩
+  obtain ⟨out, hw, hRo, hci⟩ := whileS_loopG e Nat.one_pos doc (fun _ => doc) (fun _ => sameMem_self doc)
+    (CopyInv doc) (fun _ x => extractPass objs K kt x)
+    (fun iter nap out s hs hci => by
+      obtain ⟨n1, o1, e1, s1, c1⟩ := rangeS_pass (ρ := Data) e (CopyInv doc) objOfScanned (l := objs)
+        (body := fun obj x => Ctl.call (processObj x.2 obj K kt) (fun y =>
+          if y.2 then Ctl.fall (true, y.1) else Ctl.fall (x.1, y.1)))
+        (fun obj hobj nap out s hs hci => by
+          obtain ⟨hsome, hty⟩ := hsc obj hobj
+          have hmem : objOfScanned obj ∈ doc := List.mem_map_of_mem hobj
+          cases obj with
+          | osmNode n =>
+            obtain ⟨d', ap, h1, h2, h3⟩ := tie_processNode K k hK 1 out n kt _ (seq_unflag hs)
+            refine ⟨nap || ap, d', ?_, seq_step hs.flag h2, ?_⟩
+            · cases ap <;> simp [processObj, h1, Ctl.call]
+            · rcases h3 with rfl | rfl
+              · exact hci
+              · exact copyInv_node hci n kt hmem
+          | osmWay x =>
+            obtain ⟨d', ap, h1, h2, h3, h4, h5⟩ := tie_processWay K k hK 1 out x kt _ (seq_unflag hs)
+            refine ⟨nap || ap, d', ?_, seq_step hs.flag h2, copyInv_way hci x kt hmem h3 h4 h5⟩
+            cases ap <;> simp [processObj, h1, Ctl.call]
+          | osmRelation r =>
+            obtain ⟨d', ap, h1, h2, h3, h4, h5⟩ := tie_processRelation K k hK 1 out r hty kt _ (seq_unflag hs)
+            refine ⟨nap || ap, d', ?_, seq_step hs.flag h2, copyInv_rel hci r hty kt hmem h3 h4 h5⟩
+            cases ap <;> simp [processObj, h1, Ctl.call]
+          | node _ => simp [Gen.Object.scanned] at hsome
+          | way _ => simp [Gen.Object.scanned] at hsome
+          | relation _ => simp [Gen.Object.scanned] at hsome
+          | other => simp [Gen.Object.scanned] at hsome)
+        false out _ (seq_unflag hs) hci
+      exact ⟨n1, o1, e1, s1, c1⟩)
+    (passFuel doc) 0 Data.empty State.init s' hR0 (copyInv_empty doc) hr
+  exact ⟨out, by unfold extractSeq; rw [hw]; rfl, hRo, hci⟩
+
+/-- **C18_extract_seq_src** ("extraction returns exactly the least set …; the result passes Check whenever the document
+itself has no dangling references", GOMAXPROCS = 1, composed from the REGENERATED `processNode / processWay /
+processRelation`, `hasNeed*`, keep function and `Check`): `extract`'s loop read sequentially — one worker, the scanned
+objects in file order, another pass while one of the calls returned true — terminates within `|doc| + 3` evaluations of the
+loop condition for every keep function of the proved shape (`keepShapeS_bounds/tags/all`) and every list of scanned objects
+with unique ids; the ids it has stored are, among the document's ids, exactly those of THE least closed set; every stored
+object is the copy (same key, same references) of an object of the document, stored under its own id; and when the
+document has no dangling reference the regenerated `Check` accepts the result under every map iteration order.
+Hand-written here: the worker's type switch and the two loops (`processObj`, `extractPass`, `extractSeq`); regenerated:
+everything they call. -/
+theorem C18_extract_seq_src (K : KeepFunc) (k : Keep) (hK : KeepShapeS K k) (objs : List Object) (kt : Bool)
+    (hsc : ∀ obj ∈ objs, (obj.scanned).isSome = true ∧ obj.Typed) (hu : uniqueKeys (docOf objs)) :
+    ∃ (out : Data) (S : List Ref), extractSeq (passFuel (docOf objs) + 1) objs K kt = .ok out ∧
+      IsLeastClosed (docOf objs) k (· ∈ S) ∧
+      (∀ o ∈ docOf objs, (o.key ∈ (absState out).kept ↔ o.key ∈ S)) ∧
+      CopyInv (docOf objs) out ∧
+      (noDangling (docOf objs) → ∀ orc : Oracle, orc.Valid → Check orc out = none) := by
+  let doc := docOf objs
+  let sched : List (List Nat) := (List.range' 0 (passFuel doc)).map fun _ => []
+  obtain ⟨S, hl, hrun⟩ := C18_complete k 1 Nat.one_pos doc hu sched
+  have hps : sched.map (fun ch => (doc, ch)) =
+      (List.range' 0 (passFuel doc)).map fun _ => (doc, ([] : List Nat)) := by
+    simp only [sched, List.map_map]; rfl
+  unfold extractRun at hrun
+  rw [hps] at hrun
+  cases hr : runG ⟨true, k, 1⟩ doc ((List.range' 0 (passFuel doc)).map fun _ => (doc, ([] : List Nat))) with
+  | error err => rw [hr] at hrun; simp [Except.map] at hrun
+  | ok s' =>
+    rw [hr] at hrun
+    have hres : result doc s' = doc.filter fun o => decide (o.key ∈ S) := Except.ok.inj hrun
+    obtain ⟨out, hx, hRo, hci⟩ := extract_seq_core K k hK objs kt hsc s' hr
+    have hiff : ∀ o ∈ doc, (o.key ∈ (absState out).kept ↔ o.key ∈ S) := fun o ho => by
+      have h1 := filter_eq_imp _ _ doc hres o ho
+      refine Iff.trans (hRo.kept o.key) ?_
+      simp only [State.has] at h1
+      constructor
+      · intro h; simpa [h] using h1.symm
+      · intro h; simpa [h] using h1
+    refine ⟨out, S, hx, hl, hiff, hci, fun hnd orc hv => ?_⟩
+    refine (tie_Check orc hv out hci.keys hci.typed).2 fun o ho r hr => ?_
+    obtain ⟨o', ho', hk', hr'⟩ := hci.src o ho
+    rw [← hr'] at hr
+    have hoS : o'.key ∈ S := (hiff o' ho').1 (by
+      rw [hk']; exact (present_abs out hci.keys _).2 ⟨o, ho, rfl⟩)
+    have hp : Present doc r := hnd o' ho' r hr
+    have hrS : r ∈ S := hl.1.refs o' ho' hoS r hr hp
+    obtain ⟨o2, ho2, rfl⟩ := hp
+    exact (present_abs out hci.keys _).1 ((hiff o2 ho2).2 hrS)
+
+
+/-- non-vacuity / the shape of defect (i): the way before its nodes, one node inside the bounds — three passes, everything kept -/
+example : ((extractSeq 6 [.osmWay ⟨1, [⟨1⟩, ⟨2⟩], []⟩, .osmNode ⟨1, 1, 1, []⟩, .osmNode ⟨2, 9, 9, []⟩]
+    (KeepBounds ⟨⟨0, 0⟩, ⟨2, 2⟩⟩) true).toOption.map fun d => (d.Nodes.map (·.1), d.Ways.map (·.1))) =
+    some ([2, 1], [1]) := by decide +kernel
+example : ∀ obj ∈ [Object.osmWay ⟨1, [⟨1⟩, ⟨2⟩], []⟩, .osmNode ⟨1, 1, 1, []⟩],
+    (obj.scanned).isSome = true ∧ obj.Typed := by
+  intro obj h; simp at h; rcases h with rfl | rfl <;> exact ⟨rfl, trivial⟩
+
 end GeomV.C18
